@@ -333,6 +333,16 @@ func evalDecoded(r *ev.Run, P props, st *enumStats, c *dcase) any {
 			}
 		}
 	}
+	if c.ver == 3 && P.grid {
+		// C06: the score fields of the reports are the decimal renderings of the same scores
+		for lv := 0; lv <= c.level; lv++ {
+			if txt, ok := reportScoreText(obj, lv); ok {
+				if wantTxt := strconv.FormatFloat(scores[lv], 'f', -1, 64); txt != wantTxt || !gridRe.MatchString(txt) {
+					r.Violate(ev.Violation{Kind: "score-in-report", Case: with(c.m(), "level", spec.LevelNames[lv]), Observed: fmt.Sprintf("%q", txt), Expected: fmt.Sprintf("%q (the decimal rendering of Score() = %v)", wantTxt, scores[lv])})
+				}
+			}
+		}
+	}
 	if P.neutral {
 		checkNeutral(r, c, scores)
 	}
@@ -733,6 +743,31 @@ func scoreSequences(r *ev.Run, ver, lv int) {
 				}
 				checkScoreOf(r, ver, level, lv, bg.ver, t, o, []string{fmt.Sprintf("constructor result, field %s assigned a defined value", m.Name), "Decode(" + st + ") on it"})
 				n++
+			}
+			// (g) every observer (and the views' observers) on the constructor result, then Decode on it;
+			// and the same with the base fields assigned first
+			for variant := 0; variant < 2; variant++ {
+				d := lib.New(ver, level)
+				hist := []string{"constructor result"}
+				if variant == 1 {
+					for _, m := range spec.UpTo(ver, 0) {
+						k, _ := lib.EnumOf(ver, m.Name).ConstOf(tok0[m.Name])
+						lib.SetField(d, m.Name, k)
+					}
+					hist = append(hist, "base metric fields assigned")
+				}
+				for q := 0; q <= level; q++ {
+					lib.Observe(lib.Sub(d, q))
+					if ver == 2 && q >= 1 {
+						safeRun(func() string { return fmt.Sprint(lib.IsEmpty(lib.Sub(d, q), q)) })
+					}
+				}
+				hist = append(hist, "Score, Severity, GetError, Encode, String, IsEmpty of every view", "Decode("+s0+") on the same object")
+				o, err, _ := lib.Decode(d, s0)
+				if err == nil && o != nil {
+					checkScoreOf(r, ver, level, lv, bg.ver, tok0, o, hist)
+					n++
+				}
 			}
 			// (b) v3: query, assign the other version, query again
 			if ver == 3 {
